@@ -78,6 +78,18 @@ POPCOUNT_DEFINE_PORTABLE(I64_POPCNT, u64)
 
 #endif // _MSC_VER
 
+// float -> integer truncation traps (abort, like unreachable) when the operand is a NaN or
+// its truncation is not representable; the bounds are exact in both float formats
+#define TRUNC_CHECKED(T, x, lo_ok, hi_ok) ((lo_ok) && (hi_ok) ? (T)(x) : (abort(), (T)0))
+#define I32_TRUNC_F32_S(x) TRUNC_CHECKED(int32_t, x, (x) >= -2147483648.0f, (x) < 2147483648.0f)
+#define I32_TRUNC_F64_S(x) TRUNC_CHECKED(int32_t, x, (x) > -2147483649.0, (x) < 2147483648.0)
+#define I32_TRUNC_F32_U(x) ((int32_t)TRUNC_CHECKED(uint32_t, x, (x) > -1.0f, (x) < 4294967296.0f))
+#define I32_TRUNC_F64_U(x) ((int32_t)TRUNC_CHECKED(uint32_t, x, (x) > -1.0, (x) < 4294967296.0))
+#define I64_TRUNC_F32_S(x) TRUNC_CHECKED(int64_t, x, (x) >= -9223372036854775808.0f, (x) < 9223372036854775808.0f)
+#define I64_TRUNC_F64_S(x) TRUNC_CHECKED(int64_t, x, (x) >= -9223372036854775808.0, (x) < 9223372036854775808.0)
+#define I64_TRUNC_F32_U(x) ((int64_t)TRUNC_CHECKED(uint64_t, x, (x) > -1.0f, (x) < 18446744073709551616.0f))
+#define I64_TRUNC_F64_U(x) ((int64_t)TRUNC_CHECKED(uint64_t, x, (x) > -1.0, (x) < 18446744073709551616.0))
+
 #define ROTL(x, y, mask) \
   (((x) << ((y) & (mask))) | ((x) >> (((mask) - (y) + 1) & (mask))))
 #define ROTR(x, y, mask) \
